@@ -922,4 +922,284 @@ theorem c19_off_causes_clock (a : Apu) :
       have e := hl.2.2; simp only [Noise.lt, Prod.mk.injEq] at e
       rw [e.1, h1] at h2; cases h2
 
+
+/-- the extra length clock of an NRx4 write expires the counter (and the write does not trigger):
+    length newly enabled, in the first half of a frame-sequencer period, counter at its last clock -/
+def ExtraClockExpiry (le0 : Bool) (len dec : Nat) (fs w : Nat) : Prop :=
+  trigOf w = false ∧ le0 = false ∧ leOf w = true ∧ fs % 2 = 1 ∧ len > 0 ∧ dec = 0
+
+private theorem sq_extra_off (s : Square) (fs : Nat) (le : Bool) (h1 : s.enabled = true)
+    (h2 : (s.extraLenClock fs le false).enabled = false) :
+    s.lengthEnable = false ∧ le = true ∧ fs % 2 = 1 ∧ s.length > 0 ∧ dec8 s.length = 0 := by
+  unfold Square.extraLenClock at h2
+  by_cases c : (!s.lengthEnable && le && decide (s.length > 0) && decide (fs % 2 = 1)) = true
+  · rw [if_pos c] at h2
+    have h3 : (s.enabled && !(decide (dec8 s.length = 0) && !false)) = false := h2
+    rw [h1] at h3
+    simp at c h3
+    exact ⟨c.1.1.1, c.1.1.2, c.2, c.1.2, h3⟩
+  · rw [if_neg c] at h2; rw [h1] at h2; cases h2
+
+private theorem wv_extra_off (s : Wave) (fs : Nat) (le : Bool) (h1 : s.enabled = true)
+    (h2 : (s.extraLenClock fs le false).enabled = false) :
+    s.lengthEnable = false ∧ le = true ∧ fs % 2 = 1 ∧ s.length > 0 ∧ dec16 s.length = 0 := by
+  unfold Wave.extraLenClock at h2
+  by_cases c : (!s.lengthEnable && le && decide (s.length > 0) && decide (fs % 2 = 1)) = true
+  · rw [if_pos c] at h2
+    have h3 : (s.enabled && !(decide (dec16 s.length = 0) && !false)) = false := h2
+    rw [h1] at h3
+    simp at c h3
+    exact ⟨c.1.1.1, c.1.1.2, c.2, c.1.2, h3⟩
+  · rw [if_neg c] at h2; rw [h1] at h2; cases h2
+
+private theorem ns_extra_off (s : Noise) (fs : Nat) (le : Bool) (h1 : s.enabled = true)
+    (h2 : (s.extraLenClock fs le false).enabled = false) :
+    s.lengthEnable = false ∧ le = true ∧ fs % 2 = 1 ∧ s.length > 0 ∧ dec8 s.length = 0 := by
+  unfold Noise.extraLenClock at h2
+  by_cases c : (!s.lengthEnable && le && decide (s.length > 0) && decide (fs % 2 = 1)) = true
+  · rw [if_pos c] at h2
+    have h3 : (s.enabled && !(decide (dec8 s.length = 0) && !false)) = false := h2
+    rw [h1] at h3
+    simp at c h3
+    exact ⟨c.1.1.1, c.1.1.2, c.2, c.1.2, h3⟩
+  · rw [if_neg c] at h2; rw [h1] at h2; cases h2
+
+private theorem nr52_off (a : Apu) (w : Nat) (hw : w < 256) :
+    (a.writeNR52 w).status ≠ a.status → w < 128 := by
+  intro h
+  unfold writeNR52 at h
+  by_cases c : w / 128 = 0
+  · omega
+  · rw [if_neg c] at h
+    exfalso; apply h
+    unfold powerOn; split <;> rfl
+
+/-- **C19 (off causes, writes).**  If a bus write makes a status bit fall, the write is one of:
+    NR52 with bit 7 clear (power off); the channel's NRx2 with the upper five bits zero / NR30 with
+    bit 7 clear (DAC disabled), made while sound is on; the channel's NRx4 made while sound is on,
+    either triggering with the DAC disabled (or, channel 1, with a sweep overflow) or expiring the
+    length counter by the extra length clock; or – channel 1, the real-DMG quirk – NR10 clearing the
+    negate bit after a sweep calculation was made in negate mode.  (The disjunct `hasSweep = true` of
+    channel 2 covers model states in which channel 2 would own a sweep unit; `audio.New` gives it
+    none and nothing ever changes that.) -/
+theorem c19_off_causes_write (a : Apu) (ad v : Nat) :
+    (a.ch1.enabled = true → (a.write ad v).ch1.enabled = false →
+      (ad = 0xFF26 ∧ v % 256 < 128) ∨
+      (ad = 0xFF12 ∧ a.control.on = true ∧ v % 256 / 8 = 0) ∨
+      (ad = 0xFF10 ∧ a.control.on = true ∧ v % 256 / 8 % 2 = 0 ∧ a.ch1.sweepDescending = true) ∨
+      (ad = 0xFF14 ∧ a.control.on = true ∧
+        ((trigOf (v % 256) = true ∧ ¬ Ch1TriggerOk a (v % 256)) ∨
+         ExtraClockExpiry a.ch1.lengthEnable a.ch1.length (dec8 a.ch1.length) a.frameSeqTicks (v % 256)))) ∧
+    (a.ch2.enabled = true → (a.write ad v).ch2.enabled = false →
+      (ad = 0xFF26 ∧ v % 256 < 128) ∨
+      (ad = 0xFF17 ∧ a.control.on = true ∧ v % 256 / 8 = 0) ∨
+      (ad = 0xFF19 ∧ a.control.on = true ∧
+        ((trigOf (v % 256) = true ∧ a.ch2.dacEnabled = false) ∨
+         (trigOf (v % 256) = true ∧ a.ch2.hasSweep = true) ∨
+         ExtraClockExpiry a.ch2.lengthEnable a.ch2.length (dec8 a.ch2.length) a.frameSeqTicks (v % 256)))) ∧
+    (a.ch3.enabled = true → (a.write ad v).ch3.enabled = false →
+      (ad = 0xFF26 ∧ v % 256 < 128) ∨
+      (ad = 0xFF1A ∧ a.control.on = true ∧ v % 256 < 128) ∨
+      (ad = 0xFF1E ∧ a.control.on = true ∧
+        ((trigOf (v % 256) = true ∧ a.ch3.dacEnabled = false) ∨
+         ExtraClockExpiry a.ch3.lengthEnable a.ch3.length (dec16 a.ch3.length) a.frameSeqTicks (v % 256)))) ∧
+    (a.ch4.enabled = true → (a.write ad v).ch4.enabled = false →
+      (ad = 0xFF26 ∧ v % 256 < 128) ∨
+      (ad = 0xFF21 ∧ a.control.on = true ∧ v % 256 / 8 = 0) ∨
+      (ad = 0xFF23 ∧ a.control.on = true ∧
+        ((trigOf (v % 256) = true ∧ a.ch4.dacEnabled = false) ∨
+         ExtraClockExpiry a.ch4.lengthEnable a.ch4.length (dec8 a.ch4.length) a.frameSeqTicks (v % 256)))) := by
+  have e : a.write ad v = a.writeB ad (v % 256) := rfl
+  rw [e]
+  have hw : v % 256 < 256 := Nat.mod_lt _ (by decide)
+  generalize v % 256 = w at hw ⊢
+  have heq := status_writeB_eq a ad w
+  -- power off
+  have hpow : ∀ (p : Apu → Bool), (∀ b : Apu, b.status = a.status → p b = p a) → p a = true → p (a.writeNR52 w) = false → w < 128 := by
+    intro p hp h1 h2
+    apply nr52_off a w hw
+    intro hst
+    rw [hp _ hst, h1] at h2; cases h2
+  refine ⟨fun h1 h2 => ?_, fun h1 h2 => ?_, fun h1 h2 => ?_, fun h1 h2 => ?_⟩
+  · by_cases e52 : ad = 0xFF26
+    · subst e52; left; rw [writeB_FF26] at h2
+      exact ⟨rfl, hpow (fun b => b.ch1.enabled) (fun b hb => by simp only [status, Prod.mk.injEq] at hb; exact hb.1) h1 h2⟩
+    by_cases e12 : ad = 0xFF12
+    · subst e12; right; left; rw [writeB_FF12] at h2
+      unfold writeNR12 at h2
+      by_cases hon : a.control.on = true
+      · have hn : ¬ ((!a.control.on) = true) := by rw [hon]; decide
+        rw [if_neg hn] at h2
+        have h3 : (a.ch1.enabled && (decide (w / 16 > 0) || decide (w / 8 % 2 > 0))) = false := h2
+        rw [h1] at h3; simp at h3
+        exact ⟨rfl, hon, by omega⟩
+      · have hn : (!a.control.on) = true := by simpa using hon
+        rw [if_pos hn, h1] at h2; cases h2
+    by_cases e10 : ad = 0xFF10
+    · subst e10; right; right; left; rw [writeB_FF10] at h2
+      unfold writeNR10 at h2
+      by_cases hon : a.control.on = true
+      · have hn : ¬ ((!a.control.on) = true) := by rw [hon]; decide
+        rw [if_neg hn] at h2
+        have h3 : (a.ch1.enabled && !(decide (w / 8 % 2 = 0) && a.ch1.sweepDescending)) = false := h2
+        rw [h1] at h3; simp at h3
+        exact ⟨rfl, hon, h3.1, h3.2⟩
+      · have hn : (!a.control.on) = true := by simpa using hon
+        rw [if_pos hn, h1] at h2; cases h2
+    by_cases e14 : ad = 0xFF14
+    · subst e14; right; right; right; rw [writeB_FF14] at h2
+      unfold writeNR14 at h2
+      by_cases hon : a.control.on = true
+      · have hn : ¬ ((!a.control.on) = true) := by rw [hon]; decide
+        rw [if_neg hn] at h2
+        have h3 : (a.ch1.writeNRx4 a.frameSeqTicks w).enabled = false := h2
+        rw [sq_nrx4_enabled] at h3
+        refine ⟨rfl, hon, ?_⟩
+        by_cases ht : trigOf w = true
+        · left; rw [if_pos ht] at h3
+          refine ⟨ht, fun hok => ?_⟩
+          have := (sqTrigOk_iff (a.ch1.setFreqHi w)).mpr hok
+          rw [this] at h3; cases h3
+        · right; rw [if_neg ht] at h3
+          have ht' : trigOf w = false := by simpa using ht
+          obtain ⟨x1, x2, x3, x4, x5⟩ := sq_extra_off (a.ch1.setFreqHi w) _ _ h1 h3
+          exact ⟨ht', x1, x2, x3, x4, x5⟩
+      · have hn : (!a.control.on) = true := by simpa using hon
+        rw [if_pos hn, h1] at h2; cases h2
+    · rw [heq.1 e10 e12 e14 e52, h1] at h2; cases h2
+  · by_cases e52 : ad = 0xFF26
+    · subst e52; left; rw [writeB_FF26] at h2
+      exact ⟨rfl, hpow (fun b => b.ch2.enabled) (fun b hb => by simp only [status, Prod.mk.injEq] at hb; exact hb.2.1) h1 h2⟩
+    by_cases e12 : ad = 0xFF17
+    · subst e12; right; left; rw [writeB_FF17] at h2
+      unfold writeNR22 at h2
+      by_cases hon : a.control.on = true
+      · have hn : ¬ ((!a.control.on) = true) := by rw [hon]; decide
+        rw [if_neg hn] at h2
+        have h3 : (a.ch2.enabled && (decide (w / 16 > 0) || decide (w / 8 % 2 > 0))) = false := h2
+        rw [h1] at h3; simp at h3
+        exact ⟨rfl, hon, by omega⟩
+      · have hn : (!a.control.on) = true := by simpa using hon
+        rw [if_pos hn, h1] at h2; cases h2
+    by_cases e14 : ad = 0xFF19
+    · subst e14; right; right; rw [writeB_FF19] at h2
+      unfold writeNR24 at h2
+      by_cases hon : a.control.on = true
+      · have hn : ¬ ((!a.control.on) = true) := by rw [hon]; decide
+        rw [if_neg hn] at h2
+        have h3 : (a.ch2.writeNRx4 a.frameSeqTicks w).enabled = false := h2
+        rw [sq_nrx4_enabled] at h3
+        refine ⟨rfl, hon, ?_⟩
+        by_cases ht : trigOf w = true
+        · rw [if_pos ht] at h3
+          by_cases hd : a.ch2.dacEnabled = true
+          · right; left
+            refine ⟨ht, ?_⟩
+            cases hs : a.ch2.hasSweep
+            · exfalso
+              have : sqTrigOk (a.ch2.setFreqHi w) = true := by
+                unfold sqTrigOk
+                have d1 : (a.ch2.setFreqHi w).dacEnabled = true := hd
+                have d2 : (a.ch2.setFreqHi w).hasSweep = false := hs
+                rw [d1, d2]; rfl
+              rw [this] at h3; cases h3
+            · rfl
+          · left; exact ⟨ht, by simpa using hd⟩
+        · right; right; rw [if_neg ht] at h3
+          have ht' : trigOf w = false := by simpa using ht
+          obtain ⟨x1, x2, x3, x4, x5⟩ := sq_extra_off (a.ch2.setFreqHi w) _ _ h1 h3
+          exact ⟨ht', x1, x2, x3, x4, x5⟩
+      · have hn : (!a.control.on) = true := by simpa using hon
+        rw [if_pos hn, h1] at h2; cases h2
+    · rw [heq.2.1 e12 e14 e52, h1] at h2; cases h2
+  · by_cases e52 : ad = 0xFF26
+    · subst e52; left; rw [writeB_FF26] at h2
+      exact ⟨rfl, hpow (fun b => b.ch3.enabled) (fun b hb => by simp only [status, Prod.mk.injEq] at hb; exact hb.2.2.1) h1 h2⟩
+    by_cases e12 : ad = 0xFF1A
+    · subst e12; right; left; rw [writeB_FF1A] at h2
+      unfold writeNR30 at h2
+      by_cases hon : a.control.on = true
+      · have hn : ¬ ((!a.control.on) = true) := by rw [hon]; decide
+        rw [if_neg hn] at h2
+        have h3 : (a.ch3.enabled && decide (w / 128 % 2 > 0)) = false := h2
+        rw [h1] at h3; simp at h3
+        exact ⟨rfl, hon, by omega⟩
+      · have hn : (!a.control.on) = true := by simpa using hon
+        rw [if_pos hn, h1] at h2; cases h2
+    by_cases e14 : ad = 0xFF1E
+    · subst e14; right; right; rw [writeB_FF1E] at h2
+      unfold writeNR34 at h2
+      by_cases hon : a.control.on = true
+      · have hn : ¬ ((!a.control.on) = true) := by rw [hon]; decide
+        rw [if_neg hn] at h2
+        have h3 : (a.ch3.writeNR34 a.frameSeqTicks w).enabled = false := h2
+        rw [wv_nr34_enabled] at h3
+        refine ⟨rfl, hon, ?_⟩
+        by_cases ht : trigOf w = true
+        · left; rw [if_pos ht] at h3; exact ⟨ht, h3⟩
+        · right; rw [if_neg ht] at h3
+          have ht' : trigOf w = false := by simpa using ht
+          obtain ⟨x1, x2, x3, x4, x5⟩ := wv_extra_off (a.ch3.setFreqHi w) _ _ h1 h3
+          exact ⟨ht', x1, x2, x3, x4, x5⟩
+      · have hn : (!a.control.on) = true := by simpa using hon
+        rw [if_pos hn, h1] at h2; cases h2
+    · rw [heq.2.2.1 e12 e14 e52, h1] at h2; cases h2
+  · by_cases e52 : ad = 0xFF26
+    · subst e52; left; rw [writeB_FF26] at h2
+      exact ⟨rfl, hpow (fun b => b.ch4.enabled) (fun b hb => by simp only [status, Prod.mk.injEq] at hb; exact hb.2.2.2) h1 h2⟩
+    by_cases e12 : ad = 0xFF21
+    · subst e12; right; left; rw [writeB_FF21] at h2
+      unfold writeNR42 at h2
+      by_cases hon : a.control.on = true
+      · have hn : ¬ ((!a.control.on) = true) := by rw [hon]; decide
+        rw [if_neg hn] at h2
+        have h3 : (a.ch4.enabled && (decide (w / 16 > 0) || decide (w / 8 % 2 > 0))) = false := h2
+        rw [h1] at h3; simp at h3
+        exact ⟨rfl, hon, by omega⟩
+      · have hn : (!a.control.on) = true := by simpa using hon
+        rw [if_pos hn, h1] at h2; cases h2
+    by_cases e14 : ad = 0xFF23
+    · subst e14; right; right; rw [writeB_FF23] at h2
+      unfold writeNR44 at h2
+      by_cases hon : a.control.on = true
+      · have hn : ¬ ((!a.control.on) = true) := by rw [hon]; decide
+        rw [if_neg hn] at h2
+        have h3 : (a.ch4.writeNR44 a.frameSeqTicks w).enabled = false := h2
+        rw [ns_nr44_enabled] at h3
+        refine ⟨rfl, hon, ?_⟩
+        by_cases ht : trigOf w = true
+        · left; rw [if_pos ht] at h3; exact ⟨ht, h3⟩
+        · right; rw [if_neg ht] at h3
+          have ht' : trigOf w = false := by simpa using ht
+          obtain ⟨x1, x2, x3, x4, x5⟩ := ns_extra_off a.ch4 _ _ h1 h3
+          exact ⟨ht', x1, x2, x3, x4, x5⟩
+      · have hn : (!a.control.on) = true := by simpa using hon
+        rw [if_pos hn, h1] at h2; cases h2
+    · rw [heq.2.2.2 e12 e14 e52, h1] at h2; cases h2
+
+/-- **C19 (off causes, machine cycle).**  If a status bit falls during a machine cycle it falls in one
+    of its four clocks (where `c19_off_causes_clock` names the cause); writes: `c19_off_causes_write`.
+    Together: over all histories a channel is switched off only by DAC disable, power off, length
+    expiry, sweep overflow (channel 1), a trigger that does not switch it on, or the NR10 quirk. -/
+theorem c19_off_causes_cycle (a : Apu) (p : Apu → Bool)
+    (hp : p = (fun b => b.ch1.enabled) ∨ p = (fun b => b.ch2.enabled) ∨ p = (fun b => b.ch3.enabled) ∨ p = (fun b => b.ch4.enabled))
+    (h1 : p a = true) (h2 : p a.endMachineCycle = false) :
+    ∃ i, i < 4 ∧ p (clocks i a) = true ∧ p (clocks i a).tickClock = false := by
+  have e : p a.endMachineCycle = p a.tickClock.tickClock.tickClock.tickClock := by
+    unfold endMachineCycle
+    generalize a.tickClock.tickClock.tickClock.tickClock = x
+    rcases hp with h | h | h | h <;> subst h <;> rfl
+  rw [e] at h2
+  cases c1 : p a.tickClock
+  · exact ⟨0, by omega, h1, c1⟩
+  cases c2 : p a.tickClock.tickClock
+  · exact ⟨1, by omega, c1, c2⟩
+  cases c3 : p a.tickClock.tickClock.tickClock
+  · exact ⟨2, by omega, c2, c3⟩
+  · exact ⟨3, by omega, c3, h2⟩
+
+/-- non-vacuity (length expiry in a clock): channel 2 on, length enabled, counter 1, at a length clock -/
+example : ({ ch2 := { enabled := true, lengthEnable := true, length := 1 }, ticks := 8192, frameSeqTicks := 0 } : Apu).tickClock.ch2.enabled = false := by
+  decide
+
 end Tetro.C19
